@@ -33,12 +33,14 @@ from sim.core import runner
 WATCH = (os.path.join(runner.REPO, 'clastic') + os.sep, '<sinter')
 
 ROUTES = ['ok', 'stream', 'ctx', 'static-small', 'static-big', 'static-empty', 'static-empty', 'static-missing', 'static-oddtime', 'static-oddtime', 'reroute-branch', 'reroute-branch-noslash', 'reroute-branch-dslash', 'reroute-app', 'reroute-app', 'branch', 'missing', 'm405', 'boom',
-          'http403', 'meta', 'meta-json', 'gz', 'cache', 'reroute-raise', 'reroute-ep', 'sub-ok', 'empty', 'bytes-big']
+          'http403', 'meta', 'meta-json', 'gz', 'cache', 'reroute-raise', 'reroute-ep', 'reroute-fn-ep', 'reroute-deco-raise', 'sub-ok', 'empty', 'bytes-big',
+          'static-noext-big', 'static-noext-big', 'static-noext-small']
 PATH = {'ok': '/ok', 'stream': '/stream', 'ctx': '/ctx', 'static-small': '/s/a.txt', 'static-big': '/s/big.bin',
         'static-missing': '/s/nope', 'static-empty': '/s/empty.txt', 'static-oddtime': '/s/odd.txt', 'reroute-branch': '/rb/', 'reroute-branch-noslash': '/rb',
         'reroute-branch-dslash': '/rb//', 'reroute-app': '/r3/some/path', 'branch': '/b', 'missing': '/missing', 'm405': '/g', 'boom': '/boom',
         'http403': '/forbidden', 'meta': '/meta/', 'meta-json': '/meta/json/', 'gz': '/gz', 'cache': '/cache',
-        'reroute-raise': '/rr', 'reroute-ep': '/r2', 'sub-ok': '/in/x', 'empty': '/empty', 'bytes-big': '/big'}
+        'reroute-raise': '/rr', 'reroute-ep': '/r2', 'reroute-fn-ep': '/r4', 'reroute-deco-raise': '/r5',
+        'static-noext-big': '/s/LICENSE', 'static-noext-small': '/s/README', 'sub-ok': '/in/x', 'empty': '/empty', 'bytes-big': '/big'}
 METHODS = ['GET', 'GET', 'HEAD', 'POST', 'OPTIONS']
 HEADER_SETS = [{'If-Modified-Since': 'Fri, 01 Jan 2100 00:00:00 GMT'}, {'If-Modified-Since': 'Thu, 01 Jan 1970 00:00:10 GMT'},
                {}, {'Accept': 'text/html'}, {'Accept': 'application/json'}, {'Accept-Encoding': 'gzip'},
@@ -162,7 +164,7 @@ class C13(Check):
     level_text = ('Seeded search over server behaviours x response kinds x wrapper stacks with a protocol monitor; the '
                   'route-kind x method x consumption x file-wrapper grid is swept once per run for a sampled wrapper stack.')
     level_note = 'Trusted: wsgiref.validate as the reading of PEP 3333; the monitor in sim/core/gateway.py.'
-    required_probes = ('wrapper-passes-copy-of-environ', 'wrapper-decorates-start-response', 'empty-file-through-server-file-wrapper', 'reroute-to-wrapped-application', 'conditional-static-304', 'reroute-through-rewritten-path', 'first-requests-concurrent', 'file-released-after-abort', 'file-released-without-iteration', 'head-no-body', 'reroute-same-environ',
+    required_probes = ('big-file-without-extension-served', 'reroute-target-with-other-parameter-names', 'wrapper-passes-copy-of-environ', 'wrapper-decorates-start-response', 'empty-file-through-server-file-wrapper', 'reroute-to-wrapped-application', 'conditional-static-304', 'reroute-through-rewritten-path', 'first-requests-concurrent', 'file-released-after-abort', 'file-released-without-iteration', 'head-no-body', 'reroute-same-environ',
                        'custom-file-wrapper-used', 'debug-500', 'gzip-applied')
 
     def generate(self, seed, tier):
@@ -251,6 +253,18 @@ class C13(Check):
         def rr():
             raise RerouteWSGI(target)
 
+        # WSGI callables as they occur in the wild: PEP 3333 fixes the call, not the parameter NAMES
+        def legacy_app(env, sr):
+            return target(env, sr)
+
+        def logged(app):
+            def wrapper(*args, **kwargs):
+                return app(*args, **kwargs)
+            return wrapper
+
+        def rr5():
+            raise RerouteWSGI(logged(target))
+
         def empty():
             return Response('', status=200)
 
@@ -265,7 +279,7 @@ class C13(Check):
                   ('/b/', ok), GET('/g', ok), ('/boom', boom), ('/forbidden', forbidden), ('/meta/', MetaApplication()),
                   Route('/gz', compressible, middlewares=[GzipMiddleware()]),
                   Route('/cache', ok, middlewares=[HTTPCacheMiddleware()]),
-                  ('/rr', rr), ('/r2', RerouteWSGI(target)), ('/rb/', RerouteWSGI(target)),
+                  ('/rr', rr), ('/r2', RerouteWSGI(target)), ('/r4', RerouteWSGI(legacy_app)), ('/r5', rr5), ('/rb/', RerouteWSGI(target)),
                   ('/r3/<rest*>', RerouteWSGI(target.inner_app)), ('/in', inner), ('/empty', empty), ('/big', big),
                   ('/in2', Application([('/y', ok)], middlewares=objs('t', cfg.get('sib_wrappers', []))))]
         return Application(routes, middlewares=objs('o', cfg['outer_wrappers']), debug=cfg['debug'],
@@ -283,6 +297,10 @@ class C13(Check):
                 f.write(bytes(range(256)) * 200)
             with open(os.path.join(root, 'empty.txt'), 'wb') as f:
                 pass                                                      # a zero-length file
+            with open(os.path.join(root, 'LICENSE'), 'wb') as f:           # no extension to guess a type from, several blocks long
+                f.write(b'Permission is hereby granted, free of charge...\n' * 300)
+            with open(os.path.join(root, 'README'), 'wb') as f:
+                f.write(b'short and without extension\n')
             with open(os.path.join(root, 'odd.txt'), 'wb') as f:
                 f.write(b'a file from the far future\n')
             os.utime(os.path.join(root, 'odd.txt'), (2.6e11, 2.6e11))      # year ~10200: not a datetime (kept by tmpfs)
@@ -396,6 +414,10 @@ class C13(Check):
             res.violate(K + 'file-not-released:%s@%s' % (op['consume'], 'fw-' + str(op.get('fw'))),
                         ctx + ' -> after close() still open: %r' % [os.path.basename(p) for p in leaked], step)
             return
+        if opened and route == 'static-noext-big' and ex.code == 200:
+            res.probe('big-file-without-extension-served')
+        if route in ('reroute-fn-ep', 'reroute-deco-raise') and ex.code == 201:
+            res.probe('reroute-target-with-other-parameter-names')
         if opened and route == 'static-empty' and ex.code == 200 and op.get('fw'):
             res.probe('empty-file-through-server-file-wrapper')
         if opened and route.startswith('static') and ex.code == 200:
@@ -471,7 +493,7 @@ class C13(Check):
             res.probe('reroute-same-environ')
             return
         # --- a few status expectations (the rest is C06/C08 territory) -------
-        expect = {'ok': 200, 'stream': 200, 'ctx': 200, 'static-small': 200, 'static-big': 200, 'static-empty': 200, 'static-missing': 404,
+        expect = {'ok': 200, 'stream': 200, 'ctx': 200, 'static-small': 200, 'static-big': 200, 'static-empty': 200, 'static-noext-big': 200, 'static-noext-small': 200, 'static-missing': 404,
                   'branch': 302, 'missing': 404, 'boom': 500, 'http403': 403, 'meta': 200, 'meta-json': 200, 'gz': 200,
                   'cache': 200, 'sub-ok': 200, 'empty': 200, 'bytes-big': 200}
         want = expect.get(route)
@@ -480,7 +502,7 @@ class C13(Check):
             want = None
         if route == 'branch':
             want = {'redirect': 302, 'rewrite': 200, 'strict': 404}[mode]
-        if route in ('meta', 'meta-json', 'static-small', 'static-big', 'static-empty', 'static-missing', 'static-oddtime', 'sub-ok') and mode == 'strict':
+        if route in ('meta', 'meta-json', 'static-small', 'static-big', 'static-empty', 'static-noext-big', 'static-noext-small', 'static-missing', 'static-oddtime', 'sub-ok') and mode == 'strict':
             want = None      # embedded applications under a strict host: slash handling of their mounts is C07 territory
         if route == 'static-oddtime':
             res.probe('static-file-with-unrepresentable-mtime')
